@@ -28,6 +28,7 @@ RULE = (
     'builds are unchanged. Non-trivial: configuration has tags and a shared container and an '
     'edit touches a tagged argument.'
 )
+RULE += (' ' + 'Also generated: tags on value-less positional-only parameters of a callable without **kwargs (also at the root), set nodes and plain attribute-holder objects as mutable leaves (deep copies must not share them; they are mutated on the copy).')
 ASSUMPTIONS = [
     'in-place mutation of argument values is only applied to deep copies (shallow copies share values by design)',
     'built graphs compared by canonical form with behavioural probing of partials',
